@@ -334,4 +334,26 @@ def sc5(model):
                 r.ok(n, 'token scanned by %s() is %s' % (rc[1].name, type(p).__name__.lower() + 'ed'
                                                         if isinstance(p, ast.Return) else 'used'),
                      sample=False)
+    # (b) scan_comment does not loop over comment lines: the caller has decided that a comment
+    # starts; a loop that tests for a further '%' joins the next comment line into this token
+    sc = cls.methods.get('scan_comment')
+    if sc is None:
+        raise AnalysisError('anchor vanished: Scanner.scan_comment')
+    loops = [n for n in ast.walk(sc.node) if isinstance(n, (ast.While, ast.For))]
+    hit = None
+    for lp in loops:
+        for x in ast.walk(lp):
+            if isinstance(x, ast.Compare) and any(isinstance(c, ast.Constant) and c.value == '%'
+                                                  for c in [x.left] + x.comparators):
+                hit = hit or lp
+            if isinstance(x, ast.Call) and T.call_name(x) in ('startswith',) and x.args \
+                    and isinstance(x.args[0], ast.Constant) and x.args[0].value == '%':
+                hit = hit or lp
+    if hit is not None:
+        r.fail(hit, 'scan_comment loops over directly following comment lines: they become part '
+               'of one comment token, where the %%% LT-SKIP markers are no longer seen and the '
+               'text between them is not skipped',
+               witness='an ordinary % comment line directly before %%% LT-SKIP-BEGIN')
+    else:
+        r.ok(sc.node, 'scan_comment handles one comment line', nontrivial=True)
     return r
